@@ -702,6 +702,8 @@ fn dump_fn<'tcx>(tcx: TyCtxt<'tcx>, def: LocalDefId, stolen: &mut usize) -> Opti
                         m.set("op", J::s(&format!("{:?}", op)));
                         m.set("a", cx.operand(a));
                         m.set("b", cx.operand(b2));
+                        m.set("aty", J::s(&ty_s(a.ty(body, tcx))));
+                        m.set("bty", J::s(&ty_s(b2.ty(body, tcx))));
                     }
                     OverflowNeg(a) => {
                         m.set("k", J::s("overflow_neg"));
@@ -710,10 +712,12 @@ fn dump_fn<'tcx>(tcx: TyCtxt<'tcx>, def: LocalDefId, stolen: &mut usize) -> Opti
                     DivisionByZero(a) => {
                         m.set("k", J::s("div_zero"));
                         m.set("a", cx.operand(a));
+                        m.set("aty", J::s(&ty_s(a.ty(body, tcx))));
                     }
                     RemainderByZero(a) => {
                         m.set("k", J::s("rem_zero"));
                         m.set("a", cx.operand(a));
+                        m.set("aty", J::s(&ty_s(a.ty(body, tcx))));
                     }
                     other => {
                         m.set("k", J::s("other"));
